@@ -142,7 +142,7 @@ class InboxSched(Part):
         return d
 
 
-COQ_FILES = ["Ring.v", "RingProofs.v", "Inbox.v", "InboxProofs.v", "InboxExec.v", "PropsInbox.v", "PropsRing.v"]
+COQ_FILES = ["Ring.v", "RingProofs.v", "Inbox.v", "InboxProofs.v", "InboxExec.v", "PropsInbox.v", "PropsRing.v", "DeliverExec.v"]
 TRUSTED_BASE = [
     "Coq 8.16.1 kernel; vm_compute (model replay of the explored schedules); no native_compute",
     "axioms: none (Print Assumptions below)",
@@ -159,3 +159,40 @@ ASSUMPTIONS = [
     "(same thread choices => same operations, same results, same final state) + the property predicate on every terminal observation",
     "exhaustive enumeration is of small configurations only (it supports the tie; the theorems are unbounded)",
 ]
+
+
+class Deliver(Part):
+    """real engine, real goroutines: N senders x M numbered messages into one actor
+    (inbox size 1, so the ring grows and wraps), and self-sending chains of single-message batches"""
+    name = "engine"
+    binary = "hv"
+    family = "deliver"
+    exec_module = "DeliverExec"
+    parallel = False        # the runs are timing-sensitive enough: one at a time
+    branch_names = {1: "several_senders", 2: "crosses_batch_bound_4096", 3: "over_300_consecutive_batches"}
+
+    def generate(self, rng, tier):
+        cs = [dict(mode="chain", total=350), dict(mode="chain", total=1000),
+              dict(mode="multi", senders=1, per_sender=500, inbox_size=1),
+              dict(mode="multi", senders=4, per_sender=400, inbox_size=1),
+              dict(mode="multi", senders=8, per_sender=200, inbox_size=3),
+              dict(mode="multi", senders=2, per_sender=2500, inbox_size=1),
+              dict(mode="multi", senders=3, per_sender=300, inbox_size=2, via_actor=True)]
+        if tier == "thorough":
+            cs += [dict(mode="multi", senders=8, per_sender=3000, inbox_size=1),
+                   dict(mode="multi", senders=4, per_sender=3000, inbox_size=5, via_actor=True),
+                   dict(mode="chain", total=4500)] + \
+                  [dict(mode="multi", senders=rng.randint(1, 8), per_sender=rng.randint(50, 1500), inbox_size=rng.randint(1, 9))
+                   for _ in range(12)]
+        return [{"input": c, "class": c["mode"]} for c in cs]
+
+    def to_coq(self, inp, obs):
+        senders = inp.get("senders", 1)
+        per = inp.get("per_sender", inp.get("total", 0))
+        return "{| c_senders := %s; c_per_sender := %s; c_got := %s; c_hang := %s |}" % (
+            C.cnat(senders), C.cnat(per),
+            C.clist(["{| g_from := %s; g_seq := %s; g_sender_ok := %s |}" % (C.cnat(g[0]), C.cnat(min(g[1], 4999)), C.cbool(g[2] == 1))
+                     for g in obs["got"]]), C.cbool(obs["hang"]))
+
+    def describe_obs(self, obs):
+        return {"received": len(obs["got"]), "hang": obs["hang"], "first": obs["got"][:6]}
